@@ -159,8 +159,46 @@ def _parse_emit(path):
         return (path, "harness:" + repr(e), None)
 
 
+EXOTIC = ["\x0b", "\x0c", "\x1c", "\x1d", "\x1e", "\x85", "\u2028", "\u2029", "\xa0", "\ufeff", "\x00"]
+
+
+def _exotic_file(args):
+    """a file whose comment holds a character that some line-splitting functions treat as a line boundary: what is
+    read and emitted must be the lines the file has (split at LF / CR / CRLF only)"""
+    path, ch, enc = args
+    from vsg import vhdlFile
+    from vsg.vhdlFile import utils as vu
+
+    text = "entity e is -- page %s break\nend entity e;\n-- tail %s\n" % (ch, ch)
+    try:
+        with open(path, "w", encoding=enc, newline="") as f:
+            f.write(text)
+    except UnicodeEncodeError:
+        return None
+    try:
+        lines, err = vu.read_vhdlfile(path)
+        want = open(path, encoding=enc, newline="").read().split("\n")[:-1]
+        got = vhdlFile.vhdlFile(lines).get_lines()[1:]
+        return (repr(ch), enc, want, got)
+    except Exception as e:
+        return (repr(ch), enc, None, type(e).__name__ + ": " + str(e)[:100])
+
+
 def check_emit(ck, tier):
     fs = corpus.files()
+    tmp = tempfile.mkdtemp(prefix="c04x_", dir=vlib.BUILD)
+    try:
+        jobs = [(os.path.join(tmp, "x%d_%s.vhd" % (i, enc.replace("-", ""))), ch, enc) for i, ch in enumerate(EXOTIC) for enc in ("utf-8", "ISO-8859-1")]
+        with Pool(4) as p:
+            ex = [r for r in p.map(_exotic_file, jobs) if r is not None]
+    finally:
+        shutil.rmtree(tmp, ignore_errors=True)
+    for ch, enc, want, got in ex:
+        if want is None:
+            ck.violation("emit:exotic-character-crash:" + ch, "a file (%s) with the character %s inside a comment: %s" % (enc, ch, got), {"kind": "input", "oracle": "exotic", "character": ch, "encoding": enc})
+        elif [l.rstrip("\r") for l in want] != got:
+            ck.violation("emit:exotic-character-splits-line:" + ch, "a file (%s) with the character %s inside a comment is read as %r, its lines are %r" % (enc, ch, got, want), {"kind": "input", "oracle": "exotic", "character": ch, "encoding": enc})
+    ck.cov["exotic_character_files"] = len(ex)
     with Pool(vlib.NCPU) as p:
         res = p.map(_parse_emit, fs, chunksize=8)
     acc = rej = 0
